@@ -509,11 +509,123 @@ func c08DocTokens(b []byte) (string, bool) {
 	return strings.TrimSpace(sb.String()), true
 }
 
+// v C [ {current} {parent} {grandparent} ... ] Q [ s:r.<key> | s:s.<key> ... ]  =>  found <value> | absent ; ...
+// The chain is built the way the unmarshaller nests struct fields: every enclosing level is a simpleValuer node whose
+// parent is the (simple) field valuer of the level above; a query asks the valuer createValuer gives a field of the
+// innermost struct: recursiveValuer for `inherit` (r.), simpleValuer otherwise (s.).
+func c08ExecValuer(op []string) string {
+	if len(op) < 6 || op[1] != "C" {
+		return "bad-op"
+	}
+	p := &c08Parser{toks: op[2:]}
+	var sb strings.Builder
+	p.parseInput(&sb)
+	var chain []any
+	if e := jsonx.UnmarshalFromString(sb.String(), &chain); e != nil {
+		return "bad-op"
+	}
+	if p.next() != "Q" {
+		return "bad-op"
+	}
+	var qb strings.Builder
+	p.parseInput(&qb)
+	var qs []string
+	if e := jsonx.UnmarshalFromString(qb.String(), &qs); e != nil || p.pos != len(p.toks) {
+		return "bad-op"
+	}
+	// outermost first
+	var parentField valuerWithParent
+	var node valuerWithParent
+	for i := len(chain) - 1; i >= 0; i-- {
+		m, ok := chain[i].(map[string]any)
+		if !ok {
+			return "bad-op"
+		}
+		if parentField == nil {
+			node = simpleValuer{current: mapValuer(m)}
+		} else {
+			node = &simpleValuer{current: mapValuer(m), parent: parentField}
+		}
+		parentField = createValuer(node, nil)
+	}
+	if node == nil {
+		return "bad-op"
+	}
+	inheritOpts := &fieldOptionsWithContext{Inherit: true}
+	var out []string
+	for _, q := range qs {
+		if len(q) < 3 || q[1] != '.' {
+			return "bad-op"
+		}
+		var vl valuerWithParent
+		if q[0] == 'r' {
+			vl = createValuer(node, inheritOpts)
+		} else {
+			vl = createValuer(node, nil)
+		}
+		val, ok := vl.Value(q[2:])
+		if !ok {
+			out = append(out, "absent")
+			continue
+		}
+		var vb strings.Builder
+		if !c08JSONTokens(&vb, val) {
+			return "bad-op"
+		}
+		out = append(out, "found "+strings.TrimSpace(vb.String()))
+	}
+	return strings.Join(out, " ; ")
+}
+
+func c08GenValuerOp(r *verifh.Rng) string {
+	keys := []string{"a", "b", "c", "d"}
+	depth := r.Pick(1, 2, 2, 3, 3, 4)
+	var sb strings.Builder
+	sb.WriteString("v C [")
+	for i := 0; i < depth; i++ {
+		sb.WriteString(" {")
+		for _, k := range keys {
+			if !r.Chance(1, 2) {
+				continue
+			}
+			sb.WriteString(" " + k + " ")
+			switch r.Intn(5) {
+			case 0, 1:
+				// an object: merged with the inherited object of the same key
+				sb.WriteString("{")
+				for _, kk := range []string{"x", "y", "z"} {
+					if r.Chance(1, 2) {
+						sb.WriteString(" " + kk + " " + r.PickS("n:1", "n:2", "s:v", "true", "{ p n:1 }", "null"))
+					}
+				}
+				sb.WriteString(" }")
+			case 2:
+				sb.WriteString(r.PickS("n:1", "n:2", "n:3"))
+			case 3:
+				sb.WriteString(r.PickS("s:x", "s:y", "true", "null"))
+			default:
+				sb.WriteString(r.PickS("[ n:1 ]", "[ ]", "[ { x n:1 } ]"))
+			}
+		}
+		sb.WriteString(" }")
+	}
+	sb.WriteString(" ] Q [")
+	nq := r.Range(1, 6)
+	for i := 0; i < nq; i++ {
+		sb.WriteString(" s:" + r.PickS("r", "r", "s") + "." + keys[r.Intn(len(keys))])
+	}
+	sb.WriteString(" ]")
+	return sb.String()
+}
+
 // op[0]: u = JSON text / decoded tree (see the header); uy / ut = the same document written as YAML / TOML through
 // UnmarshalYamlBytes / UnmarshalTomlBytes (fs=1: WithStringValues handed on as an option).  For uy / ut the observation
 // is `D <the JSON document the front end produced, as tokens | none> R <result>`: the converted document is a value the
 // real code computes itself (encoding.YamlToJson / TomlToJson) and is observed, the model runs on it.
 func c08Exec(op []string) string {
+	if len(op) > 0 && op[0] == "v" {
+		return c08ExecValuer(op)
+	}
 	if len(op) < 6 || (op[0] != "u" && op[0] != "uy" && op[0] != "ut") {
 		return "bad-op"
 	}
@@ -1233,6 +1345,13 @@ func c08Gen(r *verifh.Rng) []verifh.Section {
 				}
 				ops = append(ops, head+" "+cfg+" T"+tb.String()+" I "+in)
 			}
+		}
+		if i == 0 {
+			ops = append(ops,
+				"v C [ { a n:1 b { x n:1 } } { a n:2 b { x n:9 y n:2 } c s:up } { d true b { z n:3 } } ] Q [ s:r.a s:s.c s:r.c s:r.d s:s.b s:r.b s:s.b s:r.zz ]")
+		}
+		for k := verifh.Scale(6, 12); k > 0; k-- {
+			ops = append(ops, c08GenValuerOp(r))
 		}
 		secs = append(secs, verifh.Section{Cfg: fmt.Sprintf("i=%d", i), Ops: ops})
 	}
